@@ -82,7 +82,7 @@ def names(w):
     return [x[0] for x in w["calls"]]
 
 
-@harness(["C11", "C03", "C05", "C09", "C08", "C12", "C18"], "run.packet_branches", functions=[M + ".run"],
+@harness(["C11", "C03", "C05", "C09", "C08", "C12", "C18", "C07"], "run.packet_branches", functions=[M + ".run"],
          cases=[(k,) for k in KINDS])
 def h_branches(c, kind):
     if c.native:
@@ -105,6 +105,10 @@ def h_branches(c, kind):
         c.ensure("dsb.nothing_else", not handled_tls and not handled_quic)
         return
     c.ensure("no_-s.no_keylog_file_read", "read_keylog_from_file" not in nm)
+    # C07 / C12: the wrapper is built from exactly what the reader yielded - the frame bytes and the capture timestamp ITSELF (rounding or
+    # converting it would make the export depend on the container's timestamp resolution and can merge QUIC datagrams of one microsecond)
+    pk = [x for x in w["calls"] if x[0] == "Packet"]
+    c.ensure("packet.built_once_from_the_readers_frame_and_timestamp", len(pk) == 1 and pk[0][1] is w["buf"] and c.same_object(pk[0][2], w["ts"]))
     c.ensure("checksum.only_computed_with_-c_on_nonempty", implies_py(("cksum_tcp" in nm) or ("cksum_udp" in nm), c.prove(ct & (n > 0))))
     if kind == "tcp":
         want = band(n > 0, bor(bnot(ct), ok))
